@@ -11,5 +11,20 @@ for pid in sys.argv[1:]:
         subprocess.run(["git", "-C", "/repo", "worktree", "add", "-q", "--detach", wt, "HEAD"], check=True)
     prop = "%s — %s\n\n%s\n\nQuantifier: %s\n" % (pid, p["title"], p["statement"], p["quantifier"]["text"])
     n = "3"
+    # later rounds: name the mechanisms the property is anchored in and what earlier
+    # rounds already changed (from the seeded meta.json files), so new root causes come back
+    import glob
+    prior = []
+    for m in sorted(glob.glob("/verif/seeded/%s-m*/meta.json" % pid)):
+        try:
+            d = json.load(open(m))
+            prior.append("  - %s: %s" % (", ".join(d.get("files", []))[:120], str(d.get("summary", ""))[:220].replace("\n", " ")))
+        except Exception:
+            pass
+    if prior:
+        n = "4"
+        mech = "\n".join("  - %s (%s)" % (a["name"], a["where"]) for a in p["anchors"].get("mechanism", []))
+        prop += "\nMechanisms the property rests on:\n" + mech + "\n"
+        prop += "\nAn earlier round already produced these changes - do NOT repeat them or close variants; find other root causes, other code sites, other parts of the statement:\n" + "\n".join(prior) + "\n"
     open("/tmp/wt/%s.prompt.txt" % pid, "w").write(tmpl.replace("__WT__", wt).replace("__PROP__", prop).replace("__N__", n))
     print("ok", pid)
